@@ -13,6 +13,17 @@ func vInstant() uint64 {
 	return vEpoch + uint64(x)
 }
 
+// vInstantSliced is vInstant with the window cut into 2^SLICEBITS explicit slices (one Choose
+// each): the same set of instants, explored as independent jobs.
+func vInstantSliced() uint64 {
+	x := rt.NondetU32()
+	w, sb := uint(rt.Param("WBITS")), uint(rt.Param("SLICEBITS"))
+	rt.Assume(x < uint32(1)<<w)
+	j := rt.Choose(1 << sb)
+	rt.Assume(x>>(w-sb) == uint32(j))
+	return vEpoch + uint64(x)
+}
+
 // VerifDistribution: the minute-level occupancy map never hides a document: if a document of
 // the fraction lies inside the requested range, the fraction is reported as intersecting - for
 // documents far before the fraction's creation, on bucket borders, before/after the map's span.
@@ -21,12 +32,12 @@ func VerifDistribution() {
 	info := &Info{Path: "f", From: ^seq.MID(0), To: 0}
 	ids := make([]seq.ID, n)
 	for i := range ids {
-		ids[i] = seq.ID{MID: seq.MID(vInstant()), RID: seq.RID(i)}
+		ids[i] = seq.ID{MID: seq.MID(vInstantSliced()), RID: seq.RID(i)}
 		info.From = min(info.From, ids[i].MID)
 		info.To = max(info.To, ids[i].MID)
 	}
 	info.DocsTotal = uint32(n)
-	info.CreationTime = vInstant()
+	info.CreationTime = vInstantSliced()
 	info.BuildDistribution(ids)
 	rt.Reach("built")
 	if info.Distribution != nil {
